@@ -97,3 +97,23 @@ Definition ti_matches_tt : bool :=
   end.
 Theorem c09_interval_units_are_offset_free_twins : ti_matches_tt = true.
 Proof. vm_compute. reflexivity. Qed.
+
+(* "no operation lets an offset be applied twice or to an interval", as a statement about which programs exist:
+   on the typing model instantiated with the kinds and the impl_from! list that /repo declares now, no
+   From/Into exists between a temperature point and a temperature interval (either direction, any base-unit
+   combination, with or without autoconvert/std); the impl_from! table never mentions the temperature kind;
+   two points can be neither added nor subtracted (their offsets would add up) *)
+From UomV Require Import Model.Typing.
+Open Scope string_scope.
+Definition c09_temp : list Z := [0; 0; 0; 0; 1; 0; 0]%Z.
+Definition c09_tt (u : Z) : qty := mkQty c09_temp "TemperatureKind" u.
+Definition c09_ti (u : Z) : qty := mkQty c09_temp "Kind" u.
+Definition c09_cfgs : list cfg := [mkCfg true true; mkCfg false true; mkCfg true false; mkCfg false false].
+Definition c09_rejected (c : cfg) (p : prog) : bool :=
+  match ty si_kinds si_impl_from 7 c09_temp c p with None => true | Some _ => false end.
+Theorem c09_no_point_interval_conversion :
+  forallb (fun c => forallb (fun ub => c09_rejected c (PFrom (c09_tt 0) (c09_ti ub)) && c09_rejected c (PFrom (c09_ti 0) (c09_tt ub))
+                                        && c09_rejected c (PFrom (c09_tt ub) (c09_ti 0)) && c09_rejected c (PFrom (c09_ti ub) (c09_tt 0))) [0; 1]%Z) c09_cfgs
+  && forallb (fun p => negb (String.eqb (fst p) "TemperatureKind") && negb (String.eqb (snd p) "TemperatureKind")) si_impl_from
+  && forallb (fun c => forallb (fun o => c09_rejected c (PAdditive o (c09_tt 0) (c09_tt 0))) [AAdd; ASub; AAddAssign; ASubAssign]) c09_cfgs = true.
+Proof. vm_compute. reflexivity. Qed.
